@@ -974,7 +974,6 @@ func (c *Ctx) isGreatestKeyCall(u *FuncUnit, call *ast.CallExpr, depth int) bool
 	return found && okAll
 }
 
-
 // returnsFilter: a method of the same tree (Prefix split into Prefix + prefixScan) whose every
 // return is the filtering scan.
 func (c *Ctx) returnsFilter(cu, from *FuncUnit, depth int) bool {
